@@ -367,6 +367,10 @@ def main_property(prop, tier, cells, meta, jobs=None):
     seed = int(os.environ.get('VERIF_SEED', '0') or 0)
     os.makedirs(EVIDENCE_DIR, exist_ok=True)
     sel = [c for c in cells if c.tier == 'quick' or tier == 'thorough']
+    if tier == 'thorough':
+        cap = int(os.environ.get('VERIF_THOROUGH_CELL_CAP', '1500') or 1500)
+        for c in sel:
+            c.timeout_s = min(c.timeout_s, cap)      # bounds the wall time of one thorough run (cells run in parallel)
     if tier == 'quick':
         for c in sel:
             c.timeout_s = min(c.timeout_s, 900)      # a stuck solver call must not stall the quick tier
